@@ -398,6 +398,22 @@ def r7(ctx, R):
     # which worker parameter feeds which setter, and which server option is submitted for it
     args_tuple = next((kw.value for kw in sub.keywords if kw.arg == "args"), sub.args[1] if len(sub.args) > 1 else None)
     wparams = worker.params[1:] if (worker.cls and worker.params and worker.params[0] in ("self", "cls")) else list(worker.params)
+    if isinstance(args_tuple, (ast.Tuple, ast.List)) and any(isinstance(e, ast.Starred) for e in args_tuple.elts):
+        # args=(path, *common) with `common` bound once to a display: the flattened tuple
+        from .shared import defs_of
+
+        flat = []
+        for e in args_tuple.elts:
+            if isinstance(e, ast.Starred) and isinstance(e.value, ast.Name):
+                ds = [v for _, v in defs_of(ctx, f, e.value.id)]
+                if len(ds) == 1 and isinstance(ds[0], (ast.Tuple, ast.List)) and not any(isinstance(x, ast.Starred) for x in ds[0].elts):
+                    flat.extend(ds[0].elts)
+                    continue
+                flat = None
+                break
+            flat.append(e)
+        if flat is not None:
+            args_tuple = ast.Tuple(elts=flat, ctx=ast.Load())
     n = 0
     for c in calls_in(worker.node):
         kind, tg = ctx.r.resolve_call(worker, c)
